@@ -263,6 +263,36 @@ def run(prop, tier):
                 ctx.violation("look-back: clocks=%r regions=%r: %s" % (c[0], c[1], msg),
                               {"engine": "E6 real ovnisort", "clocks": c[0], "regions": c[1], "n": c[2]}, {"kind": "lookback"})
         ctx.part("lookback", cases=len(lb))
+        # a stream that ends inside an unsorted region (the closing marker never came): ovnisort must sort it or fail -
+        # "when it cannot sort it fails and says so"; exit 0 must leave a sorted stream
+        opn = [(cl, pl) for (cl, pl) in (shapes(3, (0, 1, 2), 1) if tier == "quick" else shapes(4, (0, 1, 2), 1)) if pl and pl[0][1] == len(cl)]
+
+        def one_open(c):
+            cl, pl = c
+            td = os.path.join(base, "o%d" % os.getpid())
+            shutil.rmtree(td, ignore_errors=True)
+            evs = [e for e in build_stream(cl, pl, 100) if e[0] != "OU]"]
+            rel = obs.relpath("L", 10, 100)
+            obs.write_stream(td, rel, meta(100, True), enc_all(evs))
+            rc, o, err = emusrv.run_tool(srt, [td])
+            if rc not in (0, 1):
+                return "ovnisort died (exit %r): %s" % (rc, err[-200:])
+            got = open(os.path.join(td, rel, "stream.obs"), "rb").read()
+            try:
+                clocks = [e.clock for e in obs.parse(got)]
+            except obs.ParseError as ex:
+                return "ovnisort left an undecodable stream: %s" % ex
+            if rc == 0 and clocks != sorted(clocks):
+                return "ovnisort exits 0 without a word but the stream is not sorted (clocks %r)" % clocks
+            if rc != 0 and "ERROR" not in err:
+                return "ovnisort fails without saying so"
+            return None
+        for c, msg in zip(opn, pmap(one_open, opn)):
+            ctx.add(evaluations=1, transitions=1)
+            if msg:
+                ctx.violation("stream ending inside a region: clocks=%r region from %d: %s" % (c[0], c[1][0][0], msg),
+                              {"engine": "E6 real ovnisort", "clocks": c[0], "regions": c[1], "unterminated": True}, {"kind": "open-region"})
+        ctx.part("unterminated-region", cases=len(opn))
         ctx.sample({"clocks": sh[len(sh) // 2][0], "regions": sh[len(sh) // 2][1], "events": [(e[0], e[1]) for e in build_stream(sh[len(sh) // 2][0], sh[len(sh) // 2][1], 100)]})
         ctx.cov["rule"] = ("every stream OHx, <= 3-4 (quick) / 4-6 (thorough) events cycling through plain, 16-byte-payload and jumbo encodings with clocks from a small "
                            "set, every placement of <= 2 non-nested OU[ OU] regions (incl. empty ones) such that out-of-region events are sorted, OHe; plus two-stream "
